@@ -223,3 +223,284 @@ Proof.
   - cbn [handle] in H. eapply escrow_withdraw; eauto.
   - exfalso. eapply Hne. reflexivity.
 Qed.
+
+(* ---- EndBlock: expiry ---- *)
+
+(* what the money part of the expiry loop needs of every intermediate state *)
+Definition J (s : State) : Prop :=
+  wf (bank s) /\ nonneg (bank s) /\ I_escrow s
+  /\ (forall r q, In (r, q) (reqs s) -> 0 <= r_fee q)
+  /\ (forall p e, In (p, e) (earned s) -> 0 <= e)
+  /\ wf (reqs s).
+
+Lemma slash_bank_ok cfg s r s1 :
+  slash cfg s r = Ok s1 -> wf (bank s) -> nonneg (bank s) -> wf (bank s1) /\ nonneg (bank s1).
+Proof.
+  intros H Hw Hn. apply slash_shape in H.
+  destruct H as (q & rc & b & amt & b2 & _ & _ & _ & _ & H0 & _ & Hle & _ & _ & _ & _ & ->).
+  sproj. split; [now apply wf_set|].
+  intros x v Hin. apply In_set_inv in Hin; [|assumption].
+  destruct Hin as [[-> ->]|[_ Hin]]; [lia|eauto].
+Qed.
+
+Lemma refund_bank_ok s r cons fee s1 :
+  refund_fee s r cons fee = Some s1 -> wf (bank s) -> nonneg (bank s) -> wf (bank s1) /\ nonneg (bank s1).
+Proof.
+  unfold refund_fee. destruct (transfer Escrow (User cons) fee s) as [s0|] eqn:E; [|discriminate].
+  intros H Hw Hn. injection H as <-. sproj.
+  split; [exact (transfer_wf _ _ _ _ _ E Hw) | exact (transfer_nonneg _ _ _ _ _ E Hw Hn)].
+Qed.
+
+Lemma fee_active_le_sum s r q :
+  (forall r q, In (r, q) (reqs s) -> 0 <= r_fee q) -> get r (reqs s) = Some q ->
+  fee_active r q <= msum fee_active (reqs s).
+Proof.
+  intros Hf G. assert (E : fee_active r q = fget fee_active r (reqs s)) by (unfold fget; now rewrite G).
+  rewrite E. apply msum_ge_fget. intros k v Hin. unfold fee_active. destruct (r_active v); [eauto|lia].
+Qed.
+
+Lemma expire_req_J cfg s r q rc :
+  J s -> get r (reqs s) = Some q -> r_active q = true -> get (rid_ctx r) (ctxs s) = Some rc ->
+  (c_super rc = true -> r_fee q = 0) ->
+  J (expire_req cfg s r).
+Proof.
+  intros (Hw & Hn & He & Hf & Hea & Hwr) G1 Hact G2 Hsup.
+  rewrite (expire_req_unfold _ _ _ _ _ G1 G2).
+  pose proof (expire_settle_core cfg s r q rc) as C. unfold same_req_core in C.
+  destruct C as (C1 & _ & _ & C4 & _).
+  set (st := expire_settle cfg s r q rc) in *.
+  assert (Hfee : 0 <= r_fee q) by (apply (Hf r), get_In, G1).
+  assert (Hst : wf (bank st) /\ nonneg (bank st)
+                /\ bal st Escrow = bal s Escrow - (if c_super rc then 0 else r_fee q)).
+  { unfold st, expire_settle. destruct (c_super rc) eqn:Es; [repeat split; try assumption; lia|].
+    set (sa := match slash cfg s r with Ok x => x | _ => s end).
+    assert (Hsa : wf (bank sa) /\ nonneg (bank sa) /\ bal sa Escrow = bal s Escrow).
+    { unfold sa. destruct (slash cfg s r) eqn:Esl; try (repeat split; assumption).
+      destruct (slash_bank_ok _ _ _ _ Esl Hw Hn). repeat split; try assumption.
+      apply (slash_bal _ _ _ _ Escrow Esl). discriminate. }
+    destruct Hsa as (Hw1 & Hn1 & Hb1). clearbody sa.
+    destruct (refund_fee sa r (c_cons rc) (r_fee q)) as [x|] eqn:Er.
+    - destruct (refund_bank_ok _ _ _ _ _ Er Hw1 Hn1). repeat split; try assumption.
+      rewrite (refund_bal _ _ _ _ _ Escrow Er). cbn. rewrite Hb1. lia.
+    - exfalso. unfold refund_fee in Er.
+      destruct (transfer Escrow (User (c_cons rc)) (r_fee q) sa) eqn:Et; [discriminate|].
+      unfold transfer in Et.
+      destruct ((r_fee q <? 0) || (bal sa Escrow <? r_fee q)) eqn:Eb; [|discriminate].
+      apply orb_true_iff in Eb. destruct Eb as [Eb|Eb]; b2p; [lia|].
+      unfold I_escrow in He. pose proof (fee_active_le_sum s r q Hf G1) as Hle.
+      unfold fee_active at 1 in Hle. rewrite Hact in Hle.
+      assert (0 <= msum vid (earned s)) by (apply msum_nonneg; exact Hea). lia. }
+  destruct Hst as (Hw2 & Hn2 & Hb2).
+  assert (Gst : get r (reqs st) = Some q) by (rewrite C1; exact G1).
+  unfold J. rewrite deactivate_other. sproj.
+  split; [assumption|]. split; [assumption|]. split.
+  - unfold I_escrow, bal. sproj. fold (bal st Escrow).
+    rewrite (msum_fee_deactivate _ _ _ Gst), C1, C4. unfold fee_active at 2. rewrite Hact.
+    unfold I_escrow in He. destruct (c_super rc); [rewrite Hsup by reflexivity|]; lia.
+  - rewrite deactivate_reqs, Gst, C1, C4. split; [|split; [assumption|now apply wf_set]].
+    intros r' q' Hin. apply In_set_inv in Hin; [|assumption].
+    destruct Hin as [[-> ->]|[_ Hin]]; [exact Hfee | eauto].
+Qed.
+
+Lemma fold_expire_J cfg l s :
+  NoDup l -> J s ->
+  (forall r, In r l -> exists q rc, get r (reqs s) = Some q /\ r_active q = true
+      /\ get (rid_ctx r) (ctxs s) = Some rc /\ (c_super rc = true -> r_fee q = 0)) ->
+  J (fold_left (expire_req cfg) l s).
+Proof.
+  revert s. induction l as [|a l IH]; intros s Hn HJ Hl; cbn [fold_left]; [assumption|].
+  inversion Hn as [|? ? Hni Hn']; subst.
+  destruct (Hl a (or_introl eq_refl)) as (q & rc & G1 & Ha & G2 & Hs).
+  apply IH; [assumption|eapply expire_req_J; eauto|].
+  intros r Hr. destruct (Hl r (or_intror Hr)) as (q' & rc' & G1' & Ha' & G2' & Hs').
+  exists q', rc'. pose proof (expire_req_core cfg s a) as (_ & C2 & _). rewrite C2.
+  rewrite expire_req_reqs, G1, G2. rewrite get_set_neq; [auto|]. intros ->. contradiction.
+Qed.
+
+Lemma Inv_J cfg s : Inv cfg s -> J s.
+Proof.
+  intros Hinv. unfold J. destruct (inv_bank _ _ Hinv) as (Hn & _).
+  pose proof (inv_wf _ _ Hinv) as Hwf.
+  split; [apply Hwf|]. split; [exact Hn|]. split; [apply (inv_escrow _ _ Hinv)|].
+  split; [|split; [|apply Hwf]].
+  - intros r q Hin. destruct (inv_req _ _ Hinv) as (R1 & _). destruct (R1 _ _ Hin) as (? & _ & _ & _ & Hf & _). exact Hf.
+  - intros p e Hin. destruct (inv_earn _ _ Hinv) as (E1 & _). destruct (E1 _ _ Hin). lia.
+Qed.
+
+Lemma due_ctx cfg s c :
+  Inv cfg s -> In (height s, c) (expq s) ->
+  exists rc, get c (ctxs s) = Some rc /\ get c (expq_h s) = Some (height s).
+Proof.
+  intros Hinv Hdue. destruct (inv_sched _ _ Hinv) as (S1 & _ & _ & S4 & _).
+  apply S1 in Hdue. assert (Hh : has c (ctxs s) = true).
+  { apply S4. left. unfold has. now rewrite Hdue. }
+  unfold has in Hh. destruct (get c (ctxs s)) as [rc|]; [eauto|discriminate].
+Qed.
+
+(* after the settlement part of expire_one no request of the context is active *)
+Lemma expire_one_settled cfg s c rc :
+  Inv cfg s -> get c (ctxs s) = Some rc -> get c (expq_h s) = Some (height s) ->
+  let s1 := fst (if c_bdone rc then (s, rc)
+                 else complete_batch (fold_left (expire_req cfg) (active_rids s c (c_counter rc)) s) c rc) in
+  J s1 /\ earned s1 = earned s /\ ctxs s1 = ctxs s
+  /\ (forall r q, get r (reqs s1) = Some q -> rid_ctx r = c -> r_active q = false)
+  /\ (forall r, get r (reqs s1) = None <-> get r (reqs s) = None).
+Proof.
+  intros Hinv Grc Gexp. cbv zeta.
+  pose proof (inv_wf _ _ Hinv) as Hwf. assert (Hwr : wf (reqs s)) by apply Hwf.
+  destruct (inv_req _ _ Hinv) as (R1 & _ & R3).
+  destruct (c_bdone rc) eqn:Ebd; cbn [fst].
+  - split; [now apply (Inv_J cfg)|]. split; [reflexivity|]. split; [reflexivity|]. split; [|tauto].
+    intros r q G Hc. destruct (R3 _ _ Grc) as (_ & Hsum & _).
+    rewrite Ebd, andb_false_r in Hsum.
+    assert (Hz : active_in c r q = 0).
+    { apply (msum_zero_each (active_in c) (reqs s)); [|exact Hsum|now apply get_In].
+      intros k v _. unfold active_in. destruct (_ && _); lia. }
+    unfold active_in in Hz. rewrite Hc, eqb_refl in Hz. cbn [andb] in Hz.
+    destruct (r_active q); [discriminate|reflexivity].
+  - set (l := active_rids s c (c_counter rc)).
+    set (sf := fold_left (expire_req cfg) l s).
+    pose proof (complete_batch_frame sf c rc) as F. cbv zeta in F.
+    destruct F as (F1 & _ & F3 & _ & F5 & _ & F7 & _).
+    assert (Hl : forall r, In r l -> exists q rc', get r (reqs s) = Some q /\ r_active q = true
+               /\ get (rid_ctx r) (ctxs s) = Some rc' /\ (c_super rc' = true -> r_fee q = 0)).
+    { intros r Hr. apply In_active_rids in Hr; [|assumption].
+      destruct Hr as (q & G & Hc & _ & Ha). exists q.
+      apply get_In in G. destruct (R1 _ _ G) as (rc' & G2 & _ & _ & _ & _ & _ & _ & _ & Hs).
+      exists rc'. repeat split; try assumption. now apply In_get. }
+    assert (HJ : J sf) by (apply fold_expire_J; [now apply NoDup_active_rids|now apply (Inv_J cfg)|exact Hl]).
+    pose proof (fold_expire_core cfg l s) as C. cbv zeta in C. fold sf in C.
+    destruct C as (_ & C2 & C3 & _).
+    destruct (fold_expire_reqs cfg l s Hwr) as (_ & Hg).
+    { intros r Hr. destruct (Hl r Hr) as (q & rc' & _ & _ & G2 & _). eauto. }
+    fold sf in Hg.
+    split.
+    { unfold J in *. unfold I_escrow, bal in *. rewrite F1, F3, F5. exact HJ. }
+    split; [congruence|]. split; [congruence|]. split.
+    + intros r q G Hc. rewrite F1, Hg in G.
+      destruct (mem r l) eqn:M.
+      * destruct (get r (reqs s)); cbn [option_map] in G; [|discriminate]. injection G as <-. reflexivity.
+      * apply mem_nIn in M. destruct (r_active q) eqn:Ea; [|reflexivity].
+        exfalso. apply M. apply In_active_rids; [assumption|]. exists q. repeat split; try assumption.
+        apply get_In in G. destruct (R1 _ _ G) as (rc' & G2 & Hb & _). rewrite Hc in G2. congruence.
+    + intros r. rewrite F1, Hg. destruct (mem r l); [|tauto].
+      destruct (get r (reqs s)); cbn [option_map]; split; congruence.
+Qed.
+
+Lemma I_escrow_expire_one cfg s c :
+  wf_cfg cfg -> Inv cfg s -> In (height s, c) (expq s) -> height s < HEIGHT_BOUND ->
+  I_escrow (expire_one cfg s c).
+Proof.
+  intros Hcfg Hinv Hdue Hh. destruct (due_ctx _ _ _ Hinv Hdue) as (rc & Grc & Gexp).
+  pose proof (expire_one_settled cfg s c rc Hinv Grc Gexp) as HS. cbv zeta in HS.
+  unfold expire_one. unfold ctx_or_zero. rewrite Grc.
+  destruct (if c_bdone rc then (s, rc) else complete_batch _ c rc) as [s1 rc1] eqn:Epair.
+  cbn [fst] in HS. destruct HS as (HJ & He & _ & Hinact & _).
+  match goal with |- I_escrow (clean_batch ?x c ?y) =>
+    assert (H3 : reqs x = reqs s1 /\ earned x = earned s1 /\ bank x = bank s1) end.
+  { destruct (c_state rc1); [destruct (c_rep rc1 && _)| |]; sproj; repeat split. }
+  match goal with |- I_escrow (clean_batch ?x c ?y) => set (s3 := x) in *; set (n := y) end.
+  destruct H3 as (H31 & H32 & H33).
+  destruct (clean_batch_fields s3 c n) as (Cr & _ & Cs). cbv zeta in *.
+  unfold I_escrow. rewrite Cs. unfold bal. sproj. rewrite Cr, H31, H32, H33.
+  destruct HJ as (_ & _ & HE & _ & _ & Hwr1).
+  rewrite msum_fold_del_zero; [exact HE|exact Hwr1|].
+  intros r Hr. apply In_batch_rids in Hr. destruct Hr as (_ & Hc & _).
+  unfold fget. destruct (get r (reqs s1)) as [q|] eqn:G; [|reflexivity].
+  unfold fee_active. now rewrite (Hinact _ _ G Hc).
+Qed.
+
+(* ---- EndBlock: new batch ---- *)
+
+Lemma due_new_ctx cfg s c :
+  Inv cfg s -> In (height s, c) (newq s) ->
+  exists rc, get c (ctxs s) = Some rc /\ get c (newq_h s) = Some (height s)
+             /\ get c (expq_h s) = None.
+Proof.
+  intros Hinv Hdue. destruct (inv_sched _ _ Hinv) as (_ & S2 & S3 & S4 & _).
+  apply S2 in Hdue. assert (Hn : has c (newq_h s) = true) by (unfold has; now rewrite Hdue).
+  assert (Hh : has c (ctxs s) = true) by (apply S4; now right).
+  assert (He : get c (expq_h s) = None).
+  { destruct (get c (expq_h s)) eqn:G; [|reflexivity]. exfalso. apply (S3 c); [|assumption].
+    unfold has. now rewrite G. }
+  unfold has in Hh. destruct (get c (ctxs s)) as [rc|]; [eauto|discriminate].
+Qed.
+
+(* a context without a pending expiry has no request records *)
+Lemma no_expiry_no_reqs cfg s c r :
+  Inv cfg s -> get c (expq_h s) = None -> rid_ctx r = c -> get r (reqs s) = None.
+Proof.
+  intros Hinv He Hc. destruct (get r (reqs s)) as [q|] eqn:G; [|reflexivity].
+  exfalso. apply get_In in G. destruct (inv_req _ _ Hinv) as (R1 & _).
+  destruct (R1 _ _ G) as (rc & _ & _ & Gx & _). rewrite Hc in Gx. congruence.
+Qed.
+
+Lemma fold_exch_eq_price s rc l :
+  fold_right (fun p a =>
+      exchanged_price (pricing_of s (c_svc rc, p)) (time s) (vol_of s (c_cons rc) (c_svc rc) p) + a) 0 l
+  = fold_right (fun p a =>
+      get_price (pricing_of s (c_svc rc, p)) (time s) (vol_of s (c_cons rc) (c_svc rc) p) + a) 0 l.
+Proof.
+  induction l as [|p t IH]; cbn [fold_right]; [reflexivity|].
+  now rewrite IH, C07_charged_is_stored.
+Qed.
+
+Lemma I_escrow_new_one cfg s c :
+  wf_cfg cfg -> Inv cfg s -> In (height s, c) (newq s) -> height s < HEIGHT_BOUND ->
+  I_escrow (new_one cfg s c).
+Proof.
+  intros Hcfg Hinv Hdue Hh. destruct (due_new_ctx _ _ _ Hinv Hdue) as (rc & Grc & Gnew & Gexp).
+  pose proof (inv_escrow _ _ Hinv) as He.
+  pose proof (inv_wf _ _ Hinv) as Hwf. assert (Hwr : wf (reqs s)) by apply Hwf.
+  unfold new_one, ctx_or_zero. rewrite Grc.
+  destruct (is_state rc Running && c_rep rc && (0 <? c_total rc) && (c_total rc <=? c_counter rc)).
+  { apply (escrow_frame s); sproj; try reflexivity; assumption. }
+  destruct (is_state rc Running); [|apply (escrow_frame s); sproj; try reflexivity; assumption].
+  set (el := filter_providers s rc (c_provs rc)).
+  destruct ((0 <? len el) && (c_thr rc <=? len el)).
+  2:{ apply (escrow_frame s); unfold skip_batch; sproj; try reflexivity; assumption. }
+  assert (Hissue : forall sp, reqs sp = reqs s -> earned sp = earned s -> ctxs sp = ctxs s ->
+            height sp = height s -> time sp = time s -> pricing sp = pricing s -> vols sp = vols s ->
+            bal sp Escrow = bal s Escrow + (if c_super rc then 0 else sum_prices el) ->
+            I_escrow (del_newq (add_expq (initiate_requests sp c (map fst el)) c (height s + c_timeout rc)) c (height s))).
+  { intros sp P1 P2 P3 P4 P5 P6 P7 P8.
+    unfold initiate_requests, ctx_or_zero. rewrite P3, Grc.
+    set (n := c_counter rc + 1).
+    assert (Hfresh : forall j, 0 <= j -> get (c, n, height sp, j) (reqs sp) = None).
+    { intros j _. rewrite P1. eapply no_expiry_no_reqs; eauto. }
+    assert (Hwsp : wf (reqs sp)) by (rewrite P1; assumption).
+    destruct (issue_all_reqs fee_active sp c rc n 0 (map fst el) Hwsp Hfresh) as (_ & S & _).
+    pose proof (issue_all_frame sp c rc n 0 (map fst el)) as F. unfold same_but_reqs in F.
+    destruct F as (_ & _ & _ & _ & _ & _ & _ & _ & _ & _ & _ & _ & _ & _ & _ & _ & F17 & _ & F19 & _).
+    unfold I_escrow, bal. sproj. rewrite S, F17, F19. fold (bal sp Escrow).
+    rewrite P8, P1, P2. rewrite sum_new_fee.
+    unfold I_escrow in He. destruct (c_super rc); [lia|].
+    assert (E : fold_right (fun p a => get_price (pricing_of sp (c_svc rc, p)) (time sp)
+                  (vol_of sp (c_cons rc) (c_svc rc) p) + a) 0 (map fst el) = sum_prices el).
+    { unfold el. rewrite filter_providers_sum. rewrite (fold_exch_eq_price s rc).
+      unfold pricing_of, vol_of. rewrite P5, P6, P7. reflexivity. }
+    rewrite E. lia. }
+  destruct (c_super rc) eqn:Esup.
+  - apply Hissue; try reflexivity. lia.
+  - destruct (transfer (User (c_cons rc)) Escrow (sum_prices el) s) as [x|] eqn:Et.
+    + pose proof (transfer_frame _ _ _ _ _ Et) as Hf.
+      pose proof (transfer_bal _ _ _ _ _ Escrow Et) as B. cbn in B.
+      apply Hissue; sproj; try (rewrite Hf; reflexivity).
+      unfold bal in *. sproj. lia.
+    + apply (escrow_frame s); unfold on_paused; try assumption;
+        destruct (c_mod rc =? 0); sproj; reflexivity.
+Qed.
+
+Lemma I_escrow_tick s dt :
+  I_escrow s -> I_escrow (set_time (set_height s (height s + 1)) (time s + dt)).
+Proof. intros H. exact H. Qed.
+
+Lemma I_escrow_init h0 t0 f : I_escrow (init h0 t0 f).
+Proof.
+  unfold I_escrow, init, bal. cbn [bank reqs earned msum].
+  assert (G : forall l m, get0 Escrow m = 0 ->
+     get0 Escrow (fold_left (fun m af => set (User (fst af)) (get0 (User (fst af)) m + snd af) m) l m) = 0).
+  { induction l as [|a l IH]; intros m Hm; cbn [fold_left]; [assumption|].
+    apply IH. rewrite get0_set. cbn. exact Hm. }
+  rewrite G; reflexivity.
+Qed.
